@@ -20,7 +20,7 @@ use std::process::{Command, Stdio};
 use std::sync::atomic::{AtomicUsize, Ordering};
 use std::sync::{Arc, Mutex};
 
-pub const FAMILIES: [&str; 54] = [
+pub const FAMILIES: [&str; 58] = [
     "block-literal-lines",
     "block-folded-long-lines",
     "block-wide-indent",
@@ -76,6 +76,10 @@ pub const FAMILIES: [&str; 54] = [
     "deep-nest-many-map-entries",
     "big-anchor-document-then-many-documents",
     "big-tag-document-then-many-documents",
+    "wide-flowseq-then-deep-nest",
+    "wide-blockseq-then-deep-nest",
+    "wide-flowmap-then-deep-nest",
+    "wide-flowseq-then-deep-flow-nests",
 ];
 pub const APIS: [&str; 4] = ["iter-str", "iter-buffered", "load-yaml", "load-marked"];
 pub const RATIO_LIMIT: f64 = 6.0;
@@ -374,6 +378,61 @@ pub fn render(family: &str, bytes: usize) -> String {
             }
             s.push_str(if map { "z: z}\n" } else { "z]\n" });
         }
+        // a big collection is CLOSED, then many collections are opened: whatever is remembered
+        // from the closed one (a size hint) must not be paid for at every level that follows
+        "wide-flowseq-then-deep-nest" | "wide-blockseq-then-deep-nest" | "wide-flowmap-then-deep-nest" => {
+            let depth = (bytes / 8).min(16_384);
+            match family {
+                "wide-flowseq-then-deep-nest" => {
+                    s.push_str("- [");
+                    while s.len() < bytes / 2 {
+                        s.push_str("a, ");
+                    }
+                    s.push_str("z]\n");
+                }
+                "wide-flowmap-then-deep-nest" => {
+                    s.push_str("- {");
+                    while s.len() < bytes / 2 {
+                        s.push_str(&format!("k{k}: v, "));
+                        k += 1;
+                    }
+                    s.push_str("z: z}\n");
+                }
+                _ => {
+                    s.push_str("- - a\n");
+                    while s.len() < bytes / 2 {
+                        s.push_str("  - a\n");
+                    }
+                }
+            }
+            s.push_str("- ");
+            for _ in 0..depth {
+                s.push_str(if family == "wide-flowmap-then-deep-nest" && s.len() % 4 == 0 { "- " } else { "- " });
+            }
+            s.push_str("x\n");
+            while s.len() < bytes {
+                s.push_str("- y\n");
+            }
+        }
+        "wide-flowseq-then-deep-flow-nests" => {
+            // the flow depth is capped: many 200-level nests one after the other
+            s.push_str("- [");
+            while s.len() < bytes / 2 {
+                s.push_str("a, ");
+            }
+            s.push_str("z]\n");
+            while s.len() < bytes {
+                s.push_str("- ");
+                for _ in 0..100 {
+                    s.push_str("[{a: ");
+                }
+                s.push('x');
+                for _ in 0..100 {
+                    s.push_str("}]");
+                }
+                s.push('\n');
+            }
+        }
         "many-tag-handles-one-document" => {
             // K handles declared, K nodes using one (the pinned parser keeps only the handle
             // declared last — a C16 matter, noted in DESIGN §12 — so all nodes use that one)
@@ -480,9 +539,14 @@ pub fn render(family: &str, bytes: usize) -> String {
 pub fn child(family: &str, bytes: usize, api: &str) -> i32 {
     let text = if bytes == 0 { String::new() } else { render(family, bytes) };
     let api = api.to_string();
-    let h = std::thread::Builder::new().stack_size(64 << 20).spawn(move || match api_run(&text, &api) {
-        Ok(n) => format!("OK {n}"),
-        Err(e) => format!("ERR {e}"),
+    let h = std::thread::Builder::new().stack_size(64 << 20).spawn(move || {
+        crate::alloc::start();
+        let r = api_run(&text, &api);
+        let (req, peak) = crate::alloc::stop();
+        match r {
+            Ok(n) => format!("OK {n} alloc_requested={req} alloc_peak={peak}"),
+            Err(e) => format!("ERR alloc_requested={req} alloc_peak={peak} {e}"),
+        }
     });
     match h.map(std::thread::JoinHandle::join) {
         Ok(Ok(s)) => {
@@ -550,8 +614,28 @@ pub fn measure(family: &str, bytes: usize, api: &str) -> Result<(u64, String), S
     Ok((n, so))
 }
 
+/// `(bytes requested, peak live bytes)` from a child summary.
+pub fn alloc_of(summary: &str) -> (u64, u64) {
+    let field = |name: &str| -> u64 {
+        summary
+            .split_whitespace()
+            .find_map(|t| t.strip_prefix(name))
+            .and_then(|v| v.parse().ok())
+            .unwrap_or(0)
+    };
+    (field("alloc_requested="), field("alloc_peak="))
+}
+
+fn growth(v0: u64, v1: u64, v4: u64) -> f64 {
+    (v4.saturating_sub(v0)) as f64 / (v1.saturating_sub(v0)).max(1) as f64
+}
+
 #[derive(Clone, Debug)]
 pub struct Row {
+    /// growth of bytes requested from the allocator, and of the peak of live bytes
+    pub alloc_ratio: f64,
+    pub peak_ratio: f64,
+    pub alloc: [u64; 4],
     pub family: String,
     pub api: String,
     pub n: usize,
@@ -581,8 +665,8 @@ pub fn run(cfg: &Config) -> (i32, J) {
     let mut base = std::collections::BTreeMap::new();
     for api in APIS {
         match measure("map-entries", 0, api) {
-            Ok((i, _)) => {
-                base.insert(api.to_string(), i);
+            Ok((i, s)) => {
+                base.insert(api.to_string(), (i, alloc_of(&s)));
             }
             Err(e) => {
                 eprintln!("harness error: instruction clock baseline: {e}");
@@ -615,10 +699,15 @@ pub fn run(cfg: &Config) -> (i32, J) {
             let (f, a, n) = &jobs[k];
             let r = (|| {
                 let (i1, s1) = measure(f, *n, a)?;
-                let (i4, _) = measure(f, *n * 4, a)?;
-                let i0 = base[a];
-                let ratio = (i4.saturating_sub(i0)) as f64 / (i1.saturating_sub(i0)).max(1) as f64;
-                Ok(Row { family: f.clone(), api: a.clone(), n: *n, i0, i1, i4, ratio, summary: s1 })
+                let (i4, s4) = measure(f, *n * 4, a)?;
+                let (i0, (a0, p0)) = base[a];
+                let ratio = growth(i0, i1, i4);
+                let ((a1, p1), (a4, p4)) = (alloc_of(&s1), alloc_of(&s4));
+                // a consumer that keeps nothing (the iterators) has a constant peak: growth of
+                // a difference of a few hundred bytes is noise, not a trend
+                let peak_ratio = if p4.saturating_sub(p0) < 65_536 { 1.0 } else { growth(p0, p1, p4) };
+                let alloc_ratio = if a4.saturating_sub(a0) < 65_536 { 1.0 } else { growth(a0, a1, a4) };
+                Ok(Row { family: f.clone(), api: a.clone(), n: *n, i0, i1, i4, ratio, summary: s1, alloc_ratio, peak_ratio, alloc: [a1, a4, p1, p4] })
             })();
             rows.lock().unwrap().push(r);
         }));
@@ -662,6 +751,34 @@ pub fn run(cfg: &Config) -> (i32, J) {
             for r in ok_rows.iter().skip(1).take(8).filter(|r| r.ratio > RATIO_LIMIT) {
                 println!("also: {} through {}: x{:.2}", r.family, r.api, r.ratio);
             }
+            println!("VIOLATION property=C01 replay={path}");
+            vj = J::obj().with("class", J::str(class)).with("detail", J::str(&detail)).with("replay", J::str(&path));
+            exit = 1;
+        }
+    }
+    // The allocation clock: bytes requested from the allocator and the peak of live bytes must
+    // grow like the text too (reservations that are never touched cost no instructions).
+    if exit == 0 {
+        let worst_alloc = ok_rows
+            .iter()
+            .max_by(|a, b| a.alloc_ratio.max(a.peak_ratio).partial_cmp(&b.alloc_ratio.max(b.peak_ratio)).unwrap_or(std::cmp::Ordering::Equal))
+            .cloned();
+        if let Some(w) = worst_alloc.filter(|w| w.alloc_ratio.max(w.peak_ratio) > RATIO_LIMIT) {
+            let class = "SUPERLINEAR(allocation-clock)";
+            let detail = format!(
+                "family {} through {}: {} bytes requested (peak {} live) at {} bytes of input, {} (peak {}) at {} bytes: growth x{:.2} requested, x{:.2} peak for x4 input, limit x{RATIO_LIMIT}",
+                w.family, w.api, w.alloc[0], w.alloc[2], w.n, w.alloc[1], w.alloc[3], w.n * 4, w.alloc_ratio, w.peak_ratio
+            );
+            let case = Case { prop: "C01".into(), gen: "scale".into(), shape: w.family.clone(), depth: w.n, api: w.api.clone(), ..Case::default() };
+            let path = format!("{}/replays/C01-{}-scale-{}-{}-{}.json", cfg.verif_dir, cfg.seed, w.family, w.api, w.n);
+            let mut rj = crate::batch::replay_json(cfg, 0, &case, class, &detail, None, 0);
+            rj.set("case", J::obj().with("property", J::str("C01")).with("generator", J::str("scale")).with("shape", J::str(&w.family)).with("depth", J::int(w.n)).with("api", J::str(&w.api)));
+            let _ = std::fs::create_dir_all(format!("{}/replays", cfg.verif_dir));
+            if std::fs::write(&path, rj.to_pretty()).is_err() {
+                eprintln!("harness error: cannot write {path}");
+                return (2, J::Null);
+            }
+            println!("violation class={class} detail={detail}");
             println!("VIOLATION property=C01 replay={path}");
             vj = J::obj().with("class", J::str(class)).with("detail", J::str(&detail)).with("replay", J::str(&path));
             exit = 1;
@@ -719,7 +836,7 @@ pub fn run(cfg: &Config) -> (i32, J) {
                     return (2, J::Null);
                 }
             };
-            let i0 = base[api];
+            let i0 = base[api].0;
             let growth = i2.saturating_sub(i0) as f64 / i1.saturating_sub(i0).max(1) as f64;
             let superlinear = growth > byte_growth * (RATIO_LIMIT / 4.0);
             alias_rows.push(
@@ -759,14 +876,16 @@ pub fn run(cfg: &Config) -> (i32, J) {
     let wall = t0.elapsed().as_secs_f64();
     let max_ratio = worst.as_ref().map_or(0.0, |w| w.ratio);
     println!(
-        "C01 instruction clock: {} scenarios ({} families x {} APIs x {:?} bytes, each at n and 4n) under valgrind in {:.1}s; worst growth x{:.2} ({}), limit x{RATIO_LIMIT}",
+        "C01 instruction clock: {} scenarios ({} families x {} APIs x {:?} bytes, each at n and 4n) under valgrind in {:.1}s; worst growth x{:.2} ({}), limit x{RATIO_LIMIT}; allocation clock: worst growth x{:.2} requested, x{:.2} peak",
         ok_rows.len(),
         FAMILIES.len(),
         if cfg.tier == "thorough" { 4 } else { 3 },
         sizes(&cfg.tier),
         wall,
         max_ratio,
-        worst.as_ref().map_or(String::new(), |w| format!("{} / {}", w.family, w.api))
+        worst.as_ref().map_or(String::new(), |w| format!("{} / {}", w.family, w.api)),
+        ok_rows.iter().map(|r| r.alloc_ratio).fold(0.0f64, f64::max),
+        ok_rows.iter().map(|r| r.peak_ratio).fold(0.0f64, f64::max)
     );
     let mut ev = J::obj();
     ev.set("available", J::Bool(true));
@@ -793,6 +912,16 @@ pub fn run(cfg: &Config) -> (i32, J) {
                 })
                 .collect(),
         ),
+    );
+    let max_alloc = ok_rows.iter().map(|r| r.alloc_ratio).fold(0.0f64, f64::max);
+    let max_peak = ok_rows.iter().map(|r| r.peak_ratio).fold(0.0f64, f64::max);
+    ev.set(
+        "allocation_clock",
+        J::obj()
+            .with("clock", J::str("a counting global allocator in the child: bytes requested (alloc + realloc) and peak of live bytes during the library call; exact and repeatable"))
+            .with("oracle", J::str("growth of both <= 6 for x4 input (differences below 64 KiB count as constant)"))
+            .with("worst_growth_requested", J::Float(max_alloc))
+            .with("worst_growth_peak", J::Float(max_peak)),
     );
     ev.set("level_scaled_scenarios", J::Arr(alias_rows));
     ev.set("known_findings_reproduced", J::Arr(known_hit.iter().map(|k| J::str(k)).collect()));
@@ -832,20 +961,33 @@ pub fn replay(case: &Case, path: &str) -> i32 {
             }
         };
     }
-    let r = (|| -> Result<(u64, u64, u64), String> {
-        let (i0, _) = measure(&case.shape, 0, &case.api)?;
-        let (i1, _) = measure(&case.shape, case.depth, &case.api)?;
-        let (i4, _) = measure(&case.shape, case.depth * 4, &case.api)?;
-        Ok((i0, i1, i4))
+    let r = (|| -> Result<(u64, u64, u64, f64, f64), String> {
+        let (i0, s0) = measure(&case.shape, 0, &case.api)?;
+        let (i1, s1) = measure(&case.shape, case.depth, &case.api)?;
+        let (i4, s4) = measure(&case.shape, case.depth * 4, &case.api)?;
+        let ((a0, p0), (a1, p1), (a4, p4)) = (alloc_of(&s0), alloc_of(&s1), alloc_of(&s4));
+        let ar = if a4.saturating_sub(a0) < 65_536 { 1.0 } else { growth(a0, a1, a4) };
+        let pr = if p4.saturating_sub(p0) < 65_536 { 1.0 } else { growth(p0, p1, p4) };
+        Ok((i0, i1, i4, ar, pr))
     })();
     match r {
         Err(e) => {
             eprintln!("harness error: {e}");
             2
         }
-        Ok((i0, i1, i4)) => {
+        Ok((i0, i1, i4, ar, pr)) => {
             let ratio = (i4.saturating_sub(i0)) as f64 / (i1.saturating_sub(i0)).max(1) as f64;
-            if ratio > RATIO_LIMIT {
+            if ratio <= RATIO_LIMIT && ar.max(pr) > RATIO_LIMIT {
+                println!(
+                    "violation class=SUPERLINEAR(allocation-clock) detail=family {} through {} at {} and {} bytes: growth x{ar:.2} of bytes requested, x{pr:.2} of peak live bytes, limit x{RATIO_LIMIT}",
+                    case.shape,
+                    case.api,
+                    case.depth,
+                    case.depth * 4
+                );
+                println!("VIOLATION property=C01 replay={path}");
+                1
+            } else if ratio > RATIO_LIMIT {
                 println!(
                     "violation class=SUPERLINEAR(instruction-clock) detail=family {} through {}: {i1} instructions at {} bytes, {i4} at {} bytes (empty: {i0}): growth x{ratio:.2}, limit x{RATIO_LIMIT}",
                     case.shape,
